@@ -18,6 +18,8 @@ import (
 	"go/types"
 	"sort"
 	"strings"
+	"unicode"
+	"unicode/utf8"
 
 	"golang.org/x/tools/go/packages"
 )
@@ -1176,6 +1178,14 @@ func builtinModel(key string, recv Val, args []Val) (Val, bool) {
 		b, ok2 := str(args[1])
 		if ok1 && ok2 {
 			return cv{constant.MakeString(strings.TrimSuffix(a, b))}, true
+		}
+	case "unicode/utf8.ValidString":
+		if a, ok := str(args[0]); ok {
+			return mk(utf8.ValidString(a)), true
+		}
+	case "unicode.IsControl":
+		if n, ok := valInt(args[0]); ok {
+			return mk(unicode.IsControl(rune(n))), true
 		}
 	case "reflect.DeepEqual":
 		if eq, ok := deepEqualVals(args[0], args[1]); ok {
